@@ -123,10 +123,11 @@ class G:
     def col(self, name=None, computed=False):
         r = self.r
         d = self.default(computed)
+        key = ("k_%d_%s" % (r.randrange(100), r.choice(PLAIN))) if r.random() < .25 else None     # Column.key != name (ORM attribute name)
         if d and "identity" in d:       # SQLAlchemy: Identity needs an integer column and refuses autoincrement=False
             return {"name": name or self.name(), "type": ("Integer", []), "default": d, "autoinc": r.choice([None, True]),
-                    "nullable": False, "system": False, "comment": self.text() if r.random() < .3 else None}
-        return {"name": name or self.name(), "type": r.choice(TYPES), "default": d,
+                    "nullable": False, "system": False, "comment": self.text() if r.random() < .3 else None, "key": key}
+        return {"name": name or self.name(), "type": r.choice(TYPES), "default": d, "key": key,
                 "autoinc": r.choice([None, None, None, True, False]), "nullable": r.random() < .6, "system": r.random() < .05,
                 "comment": self.text() if r.random() < .3 else None}
 
@@ -169,6 +170,15 @@ class G:
                 "if_not_exists": r.choice([None, None, None, True, False])}
 
     def tblop(self, kind):
+        o = self._tblop(kind)
+        # Column.key != database name on the columns an index / constraint hangs on (SQLAlchemy refers to them by key)
+        names = o.get("cols") or [e["col"] for e in o.get("exprs", []) if "col" in e]
+        keys = {n: "k%d_%s" % (i, self.r.choice(PLAIN)) for i, n in enumerate(dict.fromkeys(names)) if self.r.random() < .3}
+        if keys and kind in ("create_index", "drop_index", "create_unique", "create_fk", "drop_constraint"):
+            o["keys"] = keys
+        return o
+
+    def _tblop(self, kind):
         r = self.r
         if kind == "add_column":
             return {"k": kind, "col": self.col(computed=True)}
@@ -292,7 +302,7 @@ def gen_single(rnd, kind, k):
 FINDING_IDS = ["C08-server-default-quote-strip", "C08-quoted-name-flag-lost",
                "C08-add-column-primary-key-lost", "C08-drop-table-enum-type",
                "C08-mysql-functional-index-parens", "C08-percent-doubled-in-sql-expressions",
-               "C08-convention-applied-to-expression-only-index"]
+               "C08-convention-applied-to-expression-only-index", "C08-fk-referred-column-key-in-direct-invoke"]
 
 
 def registered():
@@ -325,6 +335,14 @@ def finding_cases(reg):
         out.append({"stream": "A", "cfg": cfg, "nc": False, "finding": "C08-drop-table-enum-type",
                     "ops": [{"k": "drop_table", "table": {"name": "t", "schema": None, "cols": [col(type=("Enum", ["a", "b"]))], "cons": [],
                                                           "comment": None, "prefixes": [], "if_not_exists": None}, "if_exists": None}]})
+    if "C08-fk-referred-column-key-in-direct-invoke" in reg:
+        out.append({"stream": "A", "cfg": cfg, "nc": False, "finding": "C08-fk-referred-column-key-in-direct-invoke",
+                    "ops": [{"k": "create_table", "table": {
+                        "name": "t", "schema": None, "cols": [col(name="fk", type=("Integer", []))],
+                        "cons": [{"k": "fk", "cols": ["fk"], "reftable": "t2", "refschema": "remote", "refcols": ["c_rem"],
+                                  "refkeys": {"c_rem": "c_remkey"}, "name": None, "onupdate": None, "ondelete": None, "initially": None,
+                                  "deferrable": None, "use_alter": False, "match": None}],
+                        "comment": None, "prefixes": [], "if_not_exists": None}}]})
     if "C08-convention-applied-to-expression-only-index" in reg:
         out.append({"stream": "A", "cfg": cfg, "nc": 2, "finding": "C08-convention-applied-to-expression-only-index",
                     "ops": [{"k": "modify", "table": "t", "schema": None,
@@ -425,15 +443,21 @@ def _col(c, q=None):
         args.append(d)
     elif d is not None:
         kw["server_default"] = d
+    if c.get("key"):
+        kw["key"] = c["key"]
     return sa.Column(_ident(c["name"], q), mk_type(c["type"]), *args, **kw)
 
 
 def _refspec(k):
-    return [(k["refschema"] + "." if k.get("refschema") else "") + k["reftable"] + "." + rc for rc in k["refcols"]]
+    rk = k.get("refkeys", {})       # the string spec of a ForeignKey names the referred column by its KEY
+    return [(k["refschema"] + "." if k.get("refschema") else "") + k["reftable"] + "." + rk.get(rc, rc) for rc in k["refcols"]]
 
 
-def _constraint(k):
+def _constraint(k, keys=None):
+    """keys: database name -> Column.key of the owning table (SQLAlchemy constraints refer to columns by KEY)"""
     import sqlalchemy as sa
+    keys = keys or {}
+    k = dict(k, cols=[keys.get(n, n) for n in k.get("cols", [])])
     if k["k"] == "pk":
         return sa.PrimaryKeyConstraint(*k["cols"], name=_cn(k["name"]))
     if k["k"] == "fk":
@@ -458,7 +482,9 @@ def _parents(m, cons):
         if k["k"] == "fk":
             key = (k.get("refschema") + "." if k.get("refschema") else "") + k["reftable"]
             if key not in m.tables:
-                sa.Table(k["reftable"], m, *[sa.Column(rc, sa.Integer) for rc in dict.fromkeys(k["refcols"])], schema=k.get("refschema"))
+                rk = k.get("refkeys", {})
+                sa.Table(k["reftable"], m, *[sa.Column(rc, sa.Integer, key=rk[rc]) if rc in rk else sa.Column(rc, sa.Integer)
+                                             for rc in dict.fromkeys(k["refcols"])], schema=k.get("refschema"))
 
 
 def _table(t, nc, q=None):
@@ -469,20 +495,22 @@ def _table(t, nc, q=None):
     if t.get("prefixes"):
         kw["prefixes"] = list(t["prefixes"])
     m = _metadata(nc)
-    tbl = sa.Table(_ident(t["name"], q), m, *[_col(c, q) for c in t["cols"]], *[_constraint(k) for k in t["cons"]],
+    keys = {c["name"]: c["key"] for c in t["cols"] if c.get("key")}
+    tbl = sa.Table(_ident(t["name"], q), m, *[_col(c, q) for c in t["cols"]], *[_constraint(k, keys) for k in t["cons"]],
                    schema=t["schema"], **kw)
     _parents(m, t["cons"])
     return tbl
 
 
-def _holder(tname, schema, nc, colnames, extra=(), parents=()):
+def _holder(tname, schema, nc, colnames, extra=(), parents=(), keys=None):
     """a table of the given name with the named columns, to hang an index / constraint on (as in autogenerate)"""
     import sqlalchemy as sa
+    keys = keys or {}
     seen, cols = set(), []
     for n in colnames:
         if n not in seen:
             seen.add(n)
-            cols.append(sa.Column(n, sa.Integer))
+            cols.append(sa.Column(n, sa.Integer, key=keys[n]) if n in keys else sa.Column(n, sa.Integer))
     m = _metadata(nc)
     tbl = sa.Table(tname, m, *cols, *extra, schema=schema)
     _parents(m, parents)
@@ -515,8 +543,9 @@ def _tblop(o, tname, schema, nc, q=None):
         return op
     if k in ("create_index", "drop_index"):
         cols = [e["col"] for e in o["exprs"] if "col" in e]
-        t = _holder(tname, schema, nc, cols)
-        exprs = [t.c[e["col"]] if "col" in e else sa.text(e["expr"]) if "expr" in e else
+        keys = o.get("keys", {})
+        t = _holder(tname, schema, nc, cols, keys=keys)
+        exprs = [t.c[keys.get(e["col"], e["col"])] if "col" in e else sa.text(e["expr"]) if "expr" in e else
                  sa.literal_column(e["lit"]) if "lit" in e else sa.column(e["colclause"]) for e in o["exprs"]]
         ikw = dict(o.get("kw", {}))
         if "postgresql_where" in ikw:
@@ -531,17 +560,18 @@ def _tblop(o, tname, schema, nc, q=None):
             op.if_exists = o["if_x"]
         return op
     if k == "create_unique":
-        uq = sa.UniqueConstraint(*o["cols"], name=_cn(o["name"]), deferrable=o["deferrable"], initially=o["initially"])
-        _holder(tname, schema, nc, o["cols"], [uq])
+        keys = o.get("keys", {})
+        uq = sa.UniqueConstraint(*[keys.get(n, n) for n in o["cols"]], name=_cn(o["name"]), deferrable=o["deferrable"], initially=o["initially"])
+        _holder(tname, schema, nc, o["cols"], [uq], keys=keys)
         return ops.AddConstraintOp.from_constraint(uq)
     if k == "create_fk":
-        fk = _constraint(dict(o, k="fk"))
-        _holder(tname, schema, nc, o["cols"], [fk], [dict(o, k="fk")])
+        fk = _constraint(dict(o, k="fk"), o.get("keys", {}))
+        _holder(tname, schema, nc, o["cols"], [fk], [dict(o, k="fk")], keys=o.get("keys", {}))
         return ops.AddConstraintOp.from_constraint(fk)
     if k == "drop_constraint":
         kk = _constraint(dict(o, k=o["ck"], refschema=None, onupdate=None, ondelete=None, initially=None, deferrable=None,
-                              use_alter=False, match=None))
-        _holder(tname, schema, nc, o["cols"], [kk], [dict(o, k=o["ck"], refschema=None)])
+                              use_alter=False, match=None), o.get("keys", {}))
+        _holder(tname, schema, nc, o["cols"], [kk], [dict(o, k=o["ck"], refschema=None)], keys=o.get("keys", {}))
         return ops.DropConstraintOp.from_constraint(kk)
     if k == "table_comment":
         return ops.CreateTableCommentOp(tname, o["comment"], existing_comment=o["existing"], schema=schema)
@@ -686,7 +716,8 @@ def run_case(h):
     if h["stream"] == "B":
         # outside the modelled universe: only the decider speaks
         cout = "(mkOut %s None %s)" % ("(Some [])" if syntax_ok else "None", L.b(same))
-        return dict(cin=OPAQUE_IN, cout=cout, out=out, nontrivial=syntax_ok, shape="B:" + h["b"])
+        return dict(cin=OPAQUE_IN, cout=cout, out=out, nontrivial=syntax_ok, shape="B:" + h["b"],
+                    can={"parsed": [] if syntax_ok else None, "ex": None, "same": same, "opaque": True})
     absops = [L.canon_abs(L.a_top(o)) for o in real]
     cin = "(%s, %s)" % (L.e_cfg(cfg, h["nc"]), L.lst(absops, L.e_top))
     parsed = L.parse_code(code) if syntax_ok else None
@@ -703,7 +734,85 @@ def run_case(h):
         
     kinds = sorted(kinds)
     shape = "%s%s:%s" % ("batch" if cfg["batch"] else "plain", ["", "+nc", "+nc2"][int(h["nc"])], kinds[0] if len(kinds) == 1 else "mixed")
-    return dict(cin=cin, cout=cout, out=out, nontrivial=bool(parsed) and captured is not None and len(captured) > 0, shape=shape)
+    return dict(cin=cin, cout=cout, out=out, nontrivial=bool(parsed) and captured is not None and len(captured) > 0, shape=shape,
+                can={"parsed": parsed, "ex": ex, "same": same, "opaque": False})
+
+
+# ----------------------------------------------------------------------------- canaries
+_DEFAULTS = {("unique", False), ("nullable", True), ("system", False)}
+
+
+def _drop_kw(t):
+    """the tree with the first keyword argument removed whose absence changes the call (not one that restates a default)"""
+    if t[0] == "call":
+        args = list(t[2])
+        for i, a in enumerate(args):
+            if a[0] == "kw" and a[2][0] != "none" and not (a[2][0] == "bool" and (a[1], a[2][1]) in _DEFAULTS):
+                return ("call", t[1], args[:i] + args[i + 1:])
+        for i, a in enumerate(args):
+            sub = _drop_kw(a[2] if a[0] == "kw" else a)
+            if sub is not None:
+                return ("call", t[1], args[:i] + [("kw", a[1], sub) if a[0] == "kw" else sub] + args[i + 1:])
+    if t[0] in ("list", "tuple"):
+        for i, a in enumerate(t[1]):
+            sub = _drop_kw(a)
+            if sub is not None:
+                return (t[0], t[1][:i] + [sub] + t[1][i + 1:])
+    return None
+
+
+def _alter_str(t):
+    """the tree with one character of its first string literal changed"""
+    if t[0] == "str":
+        return ("str", ("X" if not t[1].startswith("X") else "Y") + t[1][1:]) if t[1] else ("str", "X")
+    if t[0] == "call":
+        for i, a in enumerate(t[2]):
+            sub = _alter_str(a[2] if a[0] == "kw" else a)
+            if sub is not None:
+                return ("call", t[1], list(t[2][:i]) + [("kw", a[1], sub) if a[0] == "kw" else sub] + list(t[2][i + 1:]))
+    if t[0] in ("list", "tuple"):
+        for i, a in enumerate(t[1]):
+            sub = _alter_str(a)
+            if sub is not None:
+                return (t[0], list(t[1][:i]) + [sub] + list(t[1][i + 1:]))
+    return None
+
+
+def _on_stmts(stmts, f):
+    for i, st in enumerate(stmts):
+        if st[0] == "expr":
+            sub = f(st[1])
+            if sub is not None:
+                return stmts[:i] + [("expr", sub)] + stmts[i + 1:]
+        else:
+            sub = f(st[1])
+            if sub is not None:
+                return stmts[:i] + [("with", sub, st[2])] + stmts[i + 1:]
+            for j, e in enumerate(st[2]):
+                sub = f(e)
+                if sub is not None:
+                    return stmts[:i] + [("with", st[1], st[2][:j] + [sub] + st[2][j + 1:])] + stmts[i + 1:]
+    return None
+
+
+def canary(h, rec):
+    """deliberately corrupted observations of this case; the decider must reject every one of them"""
+    if rec.get("idx", 0) % 3:
+        return []                                   # every third case: keeps the quick tier inside its time budget
+    c = rec.get("can")
+    if not c or not c["same"] or c["parsed"] is None:
+        return []                                   # the decider fails on this case anyway
+    def enc(parsed, same):
+        return "(mkOut %s %s %s)" % (L.opt(parsed, lambda p: L.lst(p, L.e_stmt)), L.opt(c["ex"], lambda e: L.lst(e, L.e_top)), L.b(same))
+    out = [enc(None, True),                         # the text does not parse
+           enc(c["parsed"], False)]                 # the two paths emit different SQL
+    if not c["opaque"]:
+        stmts = [tuple(x) if not isinstance(x, tuple) else x for x in c["parsed"]]
+        for f in (_drop_kw, _alter_str):            # a keyword argument dropped / one character of a literal changed in the text
+            bad = _on_stmts(list(stmts), f)
+            if bad is not None:
+                out.append(enc(bad, True))
+    return out
 
 
 def classify(h, out):
